@@ -730,6 +730,14 @@ Proof.
 Qed.
 
 (* ---------------- the full invariant and its preservation ---------------- *)
+(* the follower's prev-entry test accepts only a matching term *)
+Hypothesis prev_sound : forall xt pt, prev_ok ru xt pt = true -> xt = pt.
+(* a vote is granted only to a candidate whose log is at least as up to date *)
+Hypothesis vote_sound : forall lli llt mli mlt g, vote_log_ok ru lli llt mli mlt g = true ->
+  N.ltb mlt llt || (N.eqb llt mlt && N.ltb mli lli) || (N.eqb llt mlt && N.eqb lli mli) = true.
+
+
+
 (* B is a set of (term, leader) pairs already known to the ghost; it lets a caller follow one ghost
    state through a step (Safety.v) *)
 Definition FIB (B : list (nat * nat)) (s : sys) (gl : ledger) : Prop :=
@@ -743,7 +751,7 @@ Lemma inv8_step01 a a' : Vote.Inv8 a -> step01 cfg a a' -> Vote.Inv8 a'.
 Proof. intros H [->|St]; [exact H|eapply Vote.step_inv8; eauto]. Qed.
 
 Lemma h_rv_resp self nd t c lli llt ok nd' r :
-  h_rv self nd t c lli llt ok = (nd', r) ->
+  h_rv ru self nd t c lli llt ok = (nd', r) ->
   exists tt g, r = RVR tt g self /\
     (g = true -> tt = t /\ term nd <= t /\ term nd' = t /\
        (let '(mli, mlt) := last_info (log nd) in
@@ -757,7 +765,7 @@ Proof.
   - rewrite L1 in H. destruct (last_info (log nd)) as [mli mlt].
     match type of H with (if ?c then _ else _) = _ => destruct c eqn:G end; injection H as <- <-.
     + exists (term nd1), true. split; [reflexivity|]. intros _. cbn [term set_term_vote].
-      rewrite !andb_true_iff in G. destruct G as [[_ G] _]. repeat split; try lia.
+      rewrite !andb_true_iff in G. destruct G as [[_ G] _]. apply vote_sound in G. repeat split; try lia; exact G.
     + exists (term nd1), false. split; [reflexivity|discriminate].
   - injection H as <- <-. exists (term nd1), false. split; [reflexivity|discriminate].
 Qed.
@@ -980,9 +988,9 @@ Proof.
     { intros s' <-. cbn [gstep]. rewrite Ek. unfold valid_id. destruct (N.ltb_spec dst (n_nodes cfg)); [reflexivity|lia]. }
     destruct m as [t cand lli llt|t g voter|t cand lli llt|t g voter|t ldr pi pt es lc|t succ fol mi]; cbn [deliver] in *; cbv zeta in *.
     + (* RV *)
-      destruct (h_rv dst (nd_of s dst) t cand lli llt ok) as [nd' r] eqn:Eh.
+      destruct (h_rv ru dst (nd_of s dst) t cand lli llt ok) as [nd' r] eqn:Eh.
       destruct (h_rv_resp _ _ _ _ _ _ _ _ _ Eh) as [tt [g [Er Hg]]]. subst r.
-      pose proof (h_rv_K1 cfg quorum_ok dst (nd_of s dst) t cand lli llt ok) as HK. rewrite Eh in HK. cbn [fst] in HK.
+      pose proof (h_rv_K1 cfg ru quorum_ok dst (nd_of s dst) t cand lli llt ok) as HK. rewrite Eh in HK. cbn [fst] in HK.
       exists gl. split; [|apply gl_ext_refl]. eapply (fi_frame s gl (GDeliver k ok)); eauto.
       * intros Hc. destruct HK as [Kl [_ [_ KC]]]. destruct (KC Hc) as [[Hoc Hot]|Hlt].
         -- intros e He. rewrite Kl in He. rewrite Hot. apply (c_cand _ _ _ HC0 dst Hdst Hoc e He).
@@ -1065,7 +1073,7 @@ Proof.
            destruct (N.leb_spec pi (llen (log (nd_of s dst)))) as [Hle|]; [|discriminate]. split; [exact Hle|].
            rewrite nth_entry_ent_at in Elok. unfold term_at.
            destruct (ent_at (log (nd_of s dst)) (N.to_nat pi)) as [x0|] eqn:Ex.
-           ++ apply N.eqb_eq in Elok. cbn. congruence.
+           ++ apply prev_sound in Elok. cbn. congruence.
            ++ exfalso. unfold ent_at in Ex. destruct (N.to_nat pi) as [|kk] eqn:Ekk; [lia|].
               apply nth_error_None in Ex. unfold llen in Hle. lia.
         -- exists gl. split; [|apply gl_ext_refl]. eapply (fi_frame s gl (GDeliver k ok)); eauto.
